@@ -154,7 +154,7 @@ fn check_script(steps: &[Step], t0: u64, sweep_seed: u64, label: &str) -> Option
     let mut now = t0;
     let mut sweeps: Vec<String> = Vec::new();
     for (i, st) in steps.iter().enumerate() {
-        let ctx = |sw: &Vec<String>| format!("{}: clock starts at {} ms; script: {}; sweeps on the second executor: [{}]", label, t0, steps[..i].iter().map(step_text).collect::<Vec<_>>().join("; "), sw.join(", "));
+        let ctx = |sw: &Vec<String>| format!("{}: clock starts at {} ms; script: {}; sweeps on the second executor: [{}]", label, t0, steps[..i].iter().map(step_text).collect::<Vec<_>>().join("; "), if sw.len() > 8 { format!("{} earlier sweeps (set_time / evict_expired_direct{}), {}", sw.len() - 6, if eager { " before every command" } else { "" }, sw[sw.len() - 6..].join(", ")) } else { sw.join(", ") });
         match st {
             Step::Clock(t) => {
                 now = *t;
@@ -320,7 +320,7 @@ pub fn search(_pid: &str, oid: &str, seed: u64) -> Option<Found> {
     };
     if glob_first { if let Some(f) = glob(&mut rng, 400) { return Some(f); } }
     for (label, steps) in structured_scripts() {
-        for sweep_seed in [0u64, 1, 2] { if let Some(f) = check_script(&steps, 100, sweep_seed, &label) { return Some(f); } }
+        for sweep_seed in [0u64, 1, 2, 3, 4, 5, 6, 9] { if let Some(f) = check_script(&steps, 100, sweep_seed, &label) { return Some(f); } }
     }
     for it in 0..5000u64 {
         let t0 = *rng.pick(&[0u64, 100, 12_345]);
